@@ -51,6 +51,15 @@ fn families() -> Vec<Family> {
         f("additional-data-empty", vec![LoadImm(7), BLength, pi(0), Eql]),
         // nested loops whose bodies end at the same instruction: a counter is incremented 3 x 2 times; approves iff it reaches 6
         f("nested-loops-count(3x2)", vec![pi(0), Loop(3, 3), Loop(2, 2), pi(1), Add, pi(6), Eql]),
+        // further undecodable shapes: a byte-string literal that announces more bytes than follow (alone, and as the cut-off tail
+        // of the standard signature covenant), and a well-formed program followed by an unknown opcode
+        Family { name: "undecodable(truncated pushb)", bytes: Bytes::from_static(&[0xf0, 0x20, 0x01, 0x02, 0x03]) },
+        Family { name: "undecodable(standard covenant cut inside its key)", bytes: { let b = cov_new(1).to_bytes(); b.slice(..b.len().min(20)) } },
+        Family { name: "undecodable(true then unknown opcode)", bytes: { let mut b = Covenant::from_ops(&[pi(1)]).to_bytes().to_vec(); b.push(0xff); b.into() } },
+        // readers of the previous header: fee pool is zero; first byte of the pool root / of the coin root is even
+        f("header-fee-pool-is-0", vec![pi(6), LoadImm(10), VRef, pi(0), Eql]),
+        f("header-pools-root-byte0-even", vec![pi(2), pi(0), pi(9), LoadImm(10), VRef, BRef, Rem, pi(0), Eql]),
+        f("header-coins-root-byte0-even", vec![pi(2), pi(0), pi(4), LoadImm(10), VRef, BRef, Rem, pi(0), Eql]),
     ]
 }
 
@@ -355,7 +364,8 @@ pub fn run(run: &Run) {
     for a in 0..nf {
         for b in 0..nf {
             for c in 0..nf {
-                if false && !thorough && !([a, b, c].iter().all(|x| sensitive.contains(x))) {
+                // quick tier: the families added last (more undecodable shapes, header readers) take part in singles and pairs only
+                if !thorough && [a, b, c].iter().any(|x| *x >= 15) {
                     continue;
                 }
                 let mut used = vec![0usize; nf];
